@@ -119,7 +119,10 @@ def e_datum(ctx, n):
             for f in ("equations", "dof", "defect"):
                 if r[f] != ref[f]:
                     dd.append("%s %s vs %s" % (f, r[f], ref[f]))
-            if abs(r["ssq"] - ref["ssq"]) > 3e-6 * max(1.0, ref["ssq"]):
+            # the two runs stop their linearisation loops at different points when the iteration counts differ: v'Pv agrees to the
+            # stop tolerance of that loop only (nonlinear datum invariance holds at convergence)
+            stol = 3e-5 if (r.get("iterations") or 0) != (ref.get("iterations") or 0) else 3e-6
+            if abs(r["ssq"] - ref["ssq"]) > stol * max(1.0, ref["ssq"]):
                 dd.append("sum of squares %.8g vs %.8g" % (r["ssq"], ref["ssq"]))
             if len(r["observations"]) == len(ref["observations"]):
                 for i, (o1, o2) in enumerate(zip(r["observations"], ref["observations"])):
